@@ -193,9 +193,7 @@ fn admit_a_forward_to_a_channel_we_do_not_have(&self, msg: &UpdateAddHTLC, next_
         && (phantom_scid(*self, outgoing_scid) || intercept_unknown(*self, outgoing_scid))
         && r->Ok_0 == !phantom_scid(*self, outgoing_scid),
  {
-        let intercept = { let inbound_amt_msat =
-						msg.amount_msat.saturating_add(msg.skimmed_fee_msat.unwrap_or(0));
-					if next_hop.outgoing_amt_msat > inbound_amt_msat {
+        let intercept = { if next_hop.outgoing_amt_msat > msg.amount_msat {
 						return Err(LocalHTLCFailureReason::FeeInsufficient);
 					}
 					let cltv_delta = msg.cltv_expiry.saturating_sub(next_hop.outgoing_cltv_value);
